@@ -212,6 +212,9 @@ Instantiate(c, inst, host) ==
        [] c.k = "then"   -> one(<< HostI(c.a, "id", "id"), HostI(c.b, "id", "id") >>)
        [] c.k = "map_effect" -> one(<< HostI(c.c, c.f, "id") >>)
        [] c.k = "map_event"  -> one(<< HostI(c.c, "id", c.f) >>)
+       \* Command::from / into: map_effect(Into::into) inside, map_event(Into::into) outside
+       [] c.k = "into"   -> one(<< HostI([k |-> "map_effect", id |-> c.id2, tid |-> c.tid2, f |-> "id", c |-> c.c],
+                                         "id", "id") >>)
        [] c.k = "async"  -> LET r == one(c.code) IN
                             [r EXCEPT !.tasks = [k \in DOMAIN r.tasks |-> [r.tasks[k] EXCEPT !.script = TRUE]]]
        [] c.k = "all"    ->
@@ -1068,7 +1071,7 @@ AsyncTids(c) ==
   CASE c.k = "async" -> {c.tid}
     [] c.k \in {"then", "and"} -> AsyncTids(c.a) \cup AsyncTids(c.b)
     [] c.k = "all" -> UNION {AsyncTids(c.cs[i].c) : i \in DOMAIN c.cs}
-    [] c.k \in {"map_effect", "map_event"} -> AsyncTids(c.c)
+    [] c.k \in {"map_effect", "map_event", "into"} -> AsyncTids(c.c)
     [] OTHER -> {}
 PendingScripts ==
   UNION {LET T == tasks[t] IN
@@ -1087,7 +1090,7 @@ OpsIn(c) ==
   CASE c.k \in {"chain", "notify"} -> 1
     [] c.k \in {"then", "and"} -> OpsIn(c.a) + OpsIn(c.b)
     [] c.k = "all" -> OpsInAll(c.cs, 1)
-    [] c.k \in {"map_effect", "map_event"} -> OpsIn(c.c)
+    [] c.k \in {"map_effect", "map_event", "into"} -> OpsIn(c.c)
     [] OTHER -> 0
 RECURSIVE SumSeq(_)
 SumSeq(q) == IF q = <<>> THEN 0 ELSE Head(q) + SumSeq(Tail(q))
